@@ -58,6 +58,7 @@ type AV struct {
 	Bind    []AV
 	Tup     []AV
 	Tag     string // for kExtFn: label
+	Consts  []string // kSlice: the complete, constant contents of a string-kinded list (package-level tables)
 }
 
 var (
@@ -173,6 +174,14 @@ func avEqual(a, b AV) bool {
 		}
 		return true
 	case kSlice:
+		if len(a.Consts) != len(b.Consts) {
+			return false
+		}
+		for i := range a.Consts {
+			if a.Consts[i] != b.Consts[i] {
+				return false
+			}
+		}
 		return a.Nil == b.Nil && sameType(a.T, b.T) && avPtrEq(a.Elem, b.Elem)
 	}
 	return false
@@ -425,6 +434,20 @@ func (w *World) globalInits() map[*ssa.Global]AV {
 			}
 		}
 	}
+	// package-level lists of constants (type-name families, collection-path tables) that are never reassigned
+	for name, m := range w.SSA.Members {
+		g, ok := m.(*ssa.Global)
+		if !ok {
+			continue
+		}
+		sl, isSlice := types.Unalias(derefType(g.Type())).Underlying().(*types.Slice)
+		if !isSlice || !isStringish(sl.Elem()) {
+			continue
+		}
+		if vals, _, ok := w.ListVar(name); ok && w.globalStoreCount(g) <= 1 {
+			out[g] = AV{K: kSlice, T: derefType(g.Type()), Nil: nilNo, Consts: append([]string{}, vals...)}
+		}
+	}
 	// function-typed globals that are never stored to at all keep their zero value (nil)
 	for _, m := range w.SSA.Members {
 		g, ok := m.(*ssa.Global)
@@ -436,6 +459,49 @@ func (w *World) globalInits() map[*ssa.Global]AV {
 		}
 	}
 	return out
+}
+
+// globalStoreCount counts the stores to g anywhere in the package (the initialiser included).
+func (w *World) globalStoreCount(g *ssa.Global) int {
+	n := 0
+	fns := append([]*ssa.Function{}, w.Funcs...)
+	if initFn := w.SSA.Func("init"); initFn != nil {
+		fns = append(fns, initFn)
+	}
+	for _, f := range fns {
+		for _, b := range f.Blocks {
+			for _, in := range b.Instrs {
+				if st, ok := in.(*ssa.Store); ok && st.Addr == ssa.Value(g) {
+					n++
+				}
+			}
+		}
+	}
+	return n
+}
+
+// isFoldContains recognises the package's membership helpers: a method on a string-kinded list whose only calls
+// are strings.EqualFold between an element and the argument.
+func isFoldContains(fn *ssa.Function) bool {
+	if fn == nil || fn.Signature.Recv() == nil || fn.Signature.Params().Len() != 1 || fn.Signature.Results().Len() != 1 {
+		return false
+	}
+	folds := 0
+	for _, b := range fn.Blocks {
+		for _, in := range b.Instrs {
+			if call, ok := in.(ssa.CallInstruction); ok {
+				cal := call.Common().StaticCallee()
+				if cal == nil || cal.Object() == nil || cal.Object().Pkg() == nil || cal.Object().Pkg().Path() != "strings" || cal.Name() != "EqualFold" {
+					if _, isBuiltin := call.Common().Value.(*ssa.Builtin); isBuiltin {
+						continue
+					}
+					return false
+				}
+				folds++
+			}
+		}
+	}
+	return folds == 1
 }
 
 func zeroAV(t types.Type) AV {
@@ -1342,6 +1408,16 @@ func (ip *Interp) callFn(fr *frame, site *ssa.Call, fn *ssa.Function, args []AV,
 	if ip.stopAt != nil && ip.stopAt(fn) {
 		ip.escape(args, st)
 		return topOfResult(resT), true
+	}
+	// membership in a constant package-level table, decided exactly
+	if len(args) == 2 && args[0].K == kSlice && args[0].Consts != nil && args[1].K == kConst && args[1].C.Kind() == constant.String && isFoldContains(fn) {
+		want := constant.StringVal(args[1].C)
+		for _, e := range args[0].Consts {
+			if strings.EqualFold(e, want) {
+				return avBool(true), true
+			}
+		}
+		return avBool(false), true
 	}
 	res, out, returned := ip.Call(fn, args, bind, *st, site)
 	if !returned {
